@@ -4,3 +4,5 @@ import SpecsModel.Props.C17
 #print axioms SpecsModel.C17.peak_is_running_max
 #print axioms SpecsModel.C17.no_index_leaked
 #print axioms SpecsModel.C17.world_no_index_leaked
+#print axioms SpecsModel.C17.concurrent_fresh_index_only_when_free_list_exhausted
+#print axioms SpecsModel.C17.concurrent_free_list_stays_empty
